@@ -14,7 +14,7 @@ import jax.tree_util as jtu
 
 from dverif import grids, harness, models
 from dverif.harness import prove_close
-from dverif.poly import Space, PolyArr, directional_derivative
+from dverif.poly import Space, PolyArr, directional_derivative, directional_derivative_with_atoms
 
 PID = 'C08'
 MOD = 'checks.c08'
@@ -109,7 +109,7 @@ def _replay_derivatives(ctx, f, xs, vs, pt):
   return x, v, [k for k, b in bad.items() if b]
 
 
-def _check_derivatives(ctx, name, f, xs_builder, conf, bits=8, exact_derivative=True, scale_floor=1.0):
+def _check_derivatives(ctx, name, f, xs_builder, conf, bits=8, exact_derivative=True, scale_floor=1.0, adjoint_bits=None):
   """f: flat arrays -> tuple of arrays.  Builds x, v (tangent), w (cotangent) symbolic and decides
      (a) jvp(f)(x)[v] == d/d eps P_f(x + eps v)  (P_f = polynomial normal form of the primal),
      (b) <J v, w> == <v, J^T w>,
@@ -134,7 +134,7 @@ def _check_derivatives(ctx, name, f, xs_builder, conf, bits=8, exact_derivative=
       return None
   for attempt in range(12):
     try:
-      return _check_derivatives_inner(ctx, name, f, xs_builder, conf, bits, exact_derivative, scale_floor, cleared)
+      return _check_derivatives_inner(ctx, name, f, xs_builder, conf, bits, exact_derivative, scale_floor, cleared, adjoint_bits)
     except DefinednessHazard as hz:
       sp = hz.sp
       verdict, pt = _hazard_witness(sp, hz, ctx.rng)
@@ -177,7 +177,7 @@ def _check_derivatives(ctx, name, f, xs_builder, conf, bits=8, exact_derivative=
     ctx.error(name, f'non-finite constant in the IR but finite primal/forward/reverse results on replay: {e}')
 
 
-def _check_derivatives_inner(ctx, name, f, xs_builder, conf, bits, exact_derivative, scale_floor, cleared=None):
+def _check_derivatives_inner(ctx, name, f, xs_builder, conf, bits, exact_derivative, scale_floor, cleared=None, adjoint_bits=None):
   from dverif.poly import DefinednessHazard
   sp = Space(bits=bits)
   sp.eager_obligations = True
@@ -186,13 +186,26 @@ def _check_derivatives_inner(ctx, name, f, xs_builder, conf, bits, exact_derivat
   vs = xs_builder(sp, 'v_')
   n = len(xs)
   try:
-    return _check_derivatives_body(ctx, name, f, sp, xs, vs, conf, exact_derivative, scale_floor)
+    if adjoint_bits is None:
+      return _check_derivatives_body(ctx, name, f, sp, xs, vs, conf, exact_derivative, scale_floor)
+    _check_derivatives_body(ctx, name, f, sp, xs, vs, conf, exact_derivative, scale_floor, parts='a')
   except DefinednessHazard as hz:
     hz.sp, hz.xs, hz.vs = sp, xs, vs
     raise
+  # adjoint clause in its own space (lower monomial degree: reciprocals of squared denominators stay separate atoms there)
+  sp2 = Space(bits=adjoint_bits)
+  sp2.eager_obligations = True
+  sp2.cleared_obligations = sp.cleared_obligations
+  sp2.normalise_recip_squares = False
+  xs2 = xs_builder(sp2, ''); vs2 = xs_builder(sp2, 'v_')
+  try:
+    return _check_derivatives_body(ctx, name, f, sp2, xs2, vs2, conf, False, scale_floor, parts='bc')
+  except DefinednessHazard as hz:
+    hz.sp, hz.xs, hz.vs = sp2, xs2, vs2
+    raise
 
 
-def _check_derivatives_body(ctx, name, f, sp, xs, vs, conf, exact_derivative, scale_floor):
+def _check_derivatives_body(ctx, name, f, sp, xs, vs, conf, exact_derivative, scale_floor, parts='abc'):
   n = len(xs)
 
   def jvp_fn(*a):
@@ -202,9 +215,8 @@ def _check_derivatives_body(ctx, name, f, sp, xs, vs, conf, exact_derivative, sc
   if exact_derivative:
     # primal normal form and its exact directional derivative
     outs_p, td, it = harness.interpret(f, xs, sp)
-    if sp.atoms:
-      ctx.clause(f'{name}.jvp_equals_exact_derivative_of_primal', 'inconclusive', config=dict(conf, reason='primal contains non-polynomial atoms'), queries=0)
-      ctx.res['inconclusive'].append(dict(clause=name, verdict='atoms'))
+    if False:
+      pass
     else:
       xcols = np.concatenate([np.asarray(x.M.tocsr().indices) for x in xs]) if False else None
       # columns of the variables: each free entry of x / v is a single-variable monomial
@@ -218,11 +230,15 @@ def _check_derivatives_body(ctx, name, f, sp, xs, vs, conf, exact_derivative, sc
         return np.asarray(cols, dtype=np.int64)
       xc, vc = var_cols(xs), var_cols(vs)
       assert len(xc) == len(vc)
-      exact = [directional_derivative(o, xc, vc) if isinstance(o, PolyArr) else np.zeros(np.shape(o)) for o in outs_p]
+      dd = directional_derivative_with_atoms if sp.atoms else directional_derivative     # chain rule through exp / log / pow / recip atoms
+      exact = [dd(o, xc, vc) if isinstance(o, PolyArr) else np.zeros(np.shape(o)) for o in outs_p]
       outs_j, tdj, itj = harness.interpret(jvp_fn, xs + vs, sp)
       harness.validate_translation(ctx, jvp_fn, xs + vs, outs_j, sp, name=name + '.jvp')
       pre = (list(outs_j) + exact, jtu.tree_structure((tuple(range(len(outs_j))), tuple(range(len(exact))))), itj)
-      ok_a = prove_close(ctx, f'{name}.jvp_equals_exact_derivative_of_primal', jvp_fn, xs + vs, sp, config=conf, pre=pre, validate=False, scale_floor=scale_floor)
+      ok_a = prove_close(ctx, f'{name}.jvp_equals_exact_derivative_of_primal', jvp_fn, xs + vs, sp, config=conf, pre=pre, validate=False, scale_floor=scale_floor,
+                          reduce_atoms=any(a['kind'] == 'recip' for a in sp.atoms))
+  if 'b' not in parts:
+    return ok_a
   # (b) adjoint identity with symbolic cotangents
   ex = [jnp.zeros(a.shape) for a in xs]
   out_shapes = [o.shape for o in jtu.tree_leaves(jax.eval_shape(f, *ex))]
@@ -291,7 +307,7 @@ def task_pe(ctx, cfg, levels, lname, kind, what):
     f = lambda *a: leaves(step(mk(*a)))
   else:
     raise KeyError(what)
-  _check_derivatives(ctx, f'primitive_equations.{what}', f, builder, conf, bits=10, exact_derivative=(kind != 'moist'))
+  _check_derivatives(ctx, f'primitive_equations.{what}', f, builder, conf, bits=(9 if kind == 'moist' else 10), exact_derivative=True, adjoint_bits=(9 if kind == 'moist' else None))
 
 
 def task_sw(ctx, cfg, integrator):
@@ -543,6 +559,26 @@ def task_upwind_derivative(ctx, lname, levels):
         ctx.error(cname, 'counterexample did not replay on the real derivative programs')
 
 
+def task_held_suarez(ctx, cfg, levels, lname):
+  """Held-Suarez forcing (exp / log / pow atoms, maximum with the temperature floor): reverse mode is the adjoint of forward mode and no
+  undefined operation is reachable, for all states in an atmospheric box.  The kink of max(minT, T_eq) is resolved by interval arithmetic
+  over the box (the harness refuses - exit 2 - if a node's branch is not the same for every state of the box)."""
+  from dinosaur import held_suarez as hs, primitive_equations as pe, scales
+  coords = models.make_coords(cfg, levels)
+  specs = pe.PrimitiveEquationsSpecs.from_si()
+  K = coords.vertical.layers
+  tref = float(specs.nondimensionalize(288 * scales.units.degK)) * np.ones(K)
+  forcing = hs.HeldSuarezForcing(coords, specs, tref)
+  ctx.encoded(hs.HeldSuarezForcing.explicit_terms, hs.HeldSuarezForcing.equilibrium_temperature, hs.HeldSuarezForcing.kt, hs.HeldSuarezForcing.kv)
+
+  def leaves(s):
+    return (s.vorticity, s.divergence, s.temperature_variation, s.log_surface_pressure)
+  f = lambda v, d, t, p: leaves(forcing.explicit_terms(pe.State(v, d, t, p)))
+  builder = lambda sp, p: models.pe_state_vars(sp, coords, prefix=p, box=0.01, lsp_box=0.05)
+  _check_derivatives(ctx, 'held_suarez.explicit_terms', f, builder, dict(grid=grids.cfg_name(cfg), levels=lname, box='vorticity/divergence/T coefficients +-0.01, ln ps +-0.05 (non-dimensional, default scale)'),
+                     bits=12, exact_derivative=True)
+
+
 def make_tasks(tier, seed):
   LS = models.level_sets(seed)
   cfg = dict(M=3, L=4, nlon=8, nlat=5)
@@ -556,6 +592,10 @@ def make_tasks(tier, seed):
            dict(name='pe-dry-euler-step', fn='task_pe', kw=dict(cfg=cfg, levels=LS['dy2'].tolist(), lname='dy2', kind='dry', what='euler_step')),
            dict(name='sw-euler', fn='task_sw', kw=dict(cfg=dict(M=2, L=3, nlon=6, nlat=4), integrator='backward_forward_euler')),
            dict(name='sw-euler-fast-padded', fn='task_sw', kw=dict(cfg=cfgp2, integrator='backward_forward_euler'))]
+  tasks.append(dict(name='pe-moist-explicit-small', fn='task_pe', kw=dict(cfg=dict(M=2, L=3, nlon=6, nlat=4), levels=LS['dy2'].tolist(), lname='dy2', kind='moist', what='explicit')))
+  tasks.append(dict(name='held-suarez', fn='task_held_suarez', kw=dict(cfg=dict(M=2, L=3, nlon=6, nlat=4), levels=LS['dy2'].tolist(), lname='dy2')))
+  if tier != 'quick':
+    tasks.append(dict(name='held-suarez-M3-dy3', fn='task_held_suarez', kw=dict(cfg=cfg, levels=LS['dy3'].tolist(), lname='dy3')))
   tasks.append(dict(name='upwind-derivative-dy3', fn='task_upwind_derivative', kw=dict(lname='dy3', levels=LS['dy3'].tolist())))
   if tier != 'quick':
     tasks.append(dict(name='upwind-derivative-dy4', fn='task_upwind_derivative', kw=dict(lname='dy4', levels=LS['dy4'].tolist())))
@@ -564,7 +604,7 @@ def make_tasks(tier, seed):
     for sn in (('n4',) if tier == 'quick' else ('n3', 'n4')):
       tasks.append(dict(name=f'interp-derivatives-{rn}-{sn}', fn='task_interp_derivatives', kw=dict(rname=rn, sname=sn, xp=nodes[sn])))
   if tier != 'quick':
-    tasks += [dict(name='pe-moist-explicit-small', fn='task_pe', kw=dict(cfg=dict(M=2, L=3, nlon=6, nlat=4), levels=LS['dy2'].tolist(), lname='dy2', kind='moist', what='explicit')),
+    tasks += [
               dict(name='sw-cnrk2', fn='task_sw', kw=dict(cfg=dict(M=2, L=3, nlon=6, nlat=4), integrator='crank_nicolson_rk2')),
               dict(name='pe-dry-explicit-M4', fn='task_pe', kw=dict(cfg=dict(M=4, L=5, nlon=12, nlat=6), levels=LS['dy2'].tolist(), lname='dy2', kind='dry', what='explicit'))]
   return tasks
@@ -583,6 +623,6 @@ def main(tier='quick', seed=0, jobs=None, only=None, t0=None):
                   'it approximates), (b) <Jv,w> = <v,J^T w> as a polynomial identity in (x,v,w), (c) no non-finite constant or undefined operation is '
                   'reachable in the derivative programs (a non-finite constant aborts the encoding and is replayed on the real derivative).',
       bounds=dict(tasks=[t['name'] for t in tasks], box='[-1,1] for state, tangent and cotangent coefficients', eps='1e-9 x coefficient mass'),
-      assumptions=['real-arithmetic semantics; kinks (max / where on data) do not occur in the entry points covered here'],
+      assumptions=['real-arithmetic semantics; kinks: interpolation and upwind advection are decided in the term domain (every branch), elsewhere a comparison on data must be decided by interval arithmetic over the box'],
       trusted=['JAX autodiff produces the IR that is checked', 'dverif interpreter', 'z3/cvc5'],
-      outside=['Held-Suarez forcing and vertical interpolation derivatives (kinks: need one-sided derivative reasoning)', 'multi-stage integrators on the primitive equations (degree explosion); covered on shallow water / by C14 for scan nesting and checkpointing'])
+      outside=['Held-Suarez forcing: only the adjoint identity and definedness (the exact-derivative clause needs a chain rule through atoms), and only where the floor kink is decided by interval arithmetic over the box', 'multi-stage integrators on the primitive equations (degree explosion); covered on shallow water / by C14 for scan nesting and checkpointing'])
